@@ -154,11 +154,33 @@ def build(case):
     from photutils.segmentation import SourceCatalog, detect_sources
     img = render_scene(case['scene'])
     ny, nx = img.shape
+    # one-row streaks (segments whose cutout has a single row) and bright
+    # blocks inside over-subtracted holes (tiny or negative Kron fluxes)
+    for (y, x, n, amp) in case['scene'].get('streaks', []):
+        img[y % ny, (x % nx):(x % nx) + n] += amp
+    for (y, x, depth, amp) in case['scene'].get('holes', []):
+        yy, xx = np.mgrid[0:ny, 0:nx]
+        cy, cx = 3 + y % (ny - 6), 3 + x % (nx - 6)
+        img -= depth * np.exp(-((yy - cy) ** 2 + (xx - cx) ** 2) / (2 * 3.0 ** 2))
+        img[cy:cy + 2, cx:cx + 2] += amp + depth
     with warnings.catch_warnings():
         warnings.simplefilter('ignore')
         segm = detect_sources(img, case['thr'], 4)
     if segm is None or segm.nlabels < 2:
         return None
+    # a hand-labelled bright pixel in an over-subtracted block: its Kron flux
+    # is tiny but positive, so no radius encloses half of it (fluxfrac_radius
+    # has no root -> NaN); scale-invariant construction
+    for (y, x, sc_) in case['scene'].get('noroot', []):
+        cy, cx = 5 + y % (ny - 10), 5 + x % (nx - 10)
+        if segm.data[cy - 4:cy + 5, cx - 4:cx + 5].any():
+            continue
+        img[cy - 4:cy + 5, cx - 4:cx + 5] = -44.0 * sc_
+        img[cy, cx] = 100.0 * sc_
+        sd = segm.data.copy()
+        sd[cy - 1:cy + 2, cx - 1:cx + 2] = sd.max() + 1
+        from photutils.segmentation import SegmentationImage
+        segm = SegmentationImage(sd)
     err = np.full(img.shape, 1.5)
     wcs = None
     if case['wcs']:
@@ -324,6 +346,30 @@ def check_history(case, ctx):
                                 f'{exp!r:.200} (evaluated before indexing: '
                                 f'{p in pre}; pre={pre[:6]}...)', prop=p,
                                 before=p in pre)
+        # ---- the same law for the photometry methods that return per-source
+        #      values: calling on the child == indexing the parent's result
+        if case['kind'] == 'cat':
+            def _pp(v):
+                v = pick(v, idx)
+                return pick(v, idx2) if idx2 is not None else v
+            for mname, call in (
+                    ('fluxfrac_radius', lambda c: c.fluxfrac_radius(0.5)),
+                    ('circular_photometry', lambda c: c.circular_photometry(2.5)),
+                    ('kron_photometry', lambda c: c.kron_photometry((2.5, 1.4)))):
+                rv = call(ref)
+                cv = call(child)
+                if isinstance(rv, tuple):
+                    ok = all(eq(np.atleast_1d(c_), np.atleast_1d(_pp(r_)))
+                             for c_, r_ in zip(cv, rv))
+                else:
+                    ok = eq(np.atleast_1d(cv), np.atleast_1d(_pp(rv)))
+                if not ok:
+                    raise Violation('method_commutation',
+                                    f'cat[{idx!r}]{"" if idx2 is None else [idx2]}'
+                                    f'.{mname}(...) = {cv!r:.200} but '
+                                    f'cat.{mname}(...)[idx] = {_pp(rv) if not isinstance(rv, tuple) else [_pp(r_) for r_ in rv]!r:.200}',
+                                    method=mname)
+            ctx.event('method_commutation_checked')
         # parent still agrees with the fresh reference
         for p in props:
             if not eq(getattr(parent, p), getattr(ref, p)):
@@ -446,6 +492,15 @@ def history_cases(draw):
                               'sx': 0.7, 'sy': 0.7, 'theta': 0.0,
                               'amp': draw(st.floats(6, 12)), 'dx2': 0.0,
                               'dy2': 0.0, 'f2': 0.0})
+    sc['streaks'] = [list(t) for t in draw(st.lists(st.tuples(
+        st.integers(0, 40), st.integers(0, 30), st.integers(4, 7),
+        st.floats(8, 30)), max_size=2))]
+    sc['holes'] = [list(t) for t in draw(st.lists(st.tuples(
+        st.integers(0, 40), st.integers(0, 40), st.floats(1.0, 12.0),
+        st.floats(6, 20)), max_size=2))]
+    sc['noroot'] = [list(t) for t in draw(st.lists(st.tuples(
+        st.integers(0, 40), st.integers(0, 40), st.sampled_from([1.0, 0.5, 3.0])),
+        max_size=2))]
     kind = draw(st.sampled_from(['cat', 'cat', 'aps']))
     return {
         'scene': sc, 'thr': 2.5, 'kind': kind,
